@@ -38,6 +38,15 @@ func DomainOf(doc jx.Obj) Domain {
 		}
 	}
 	sort.Strings(d.IDs)
+	// undeclared spellings of declared ids (another letter case): lookups must not find them
+	for _, id := range append([]string{}, d.IDs...) {
+		for _, v := range []string{strings.ToUpper(id), strings.ToLower(id)} {
+			if !seen[v] {
+				seen[v] = true
+				d.IDs = append(d.IDs, v)
+			}
+		}
+	}
 	d.IDs = append(d.IDs, "__unknown__")
 	return d
 }
